@@ -62,7 +62,7 @@ func runCustom(raw json.RawMessage) (interface{}, error) {
 	var out interface{}
 	var err error
 	for try := 0; try < 4; try++ {
-		out, err = runCustomOnce(raw)
+		out, err = retryHang("custombackend", func() (interface{}, error) { return runCustomOnce(raw) })
 		if m, ok := out.(map[string]interface{}); ok {
 			if c, ok := m["crash"].(map[string]interface{}); ok {
 				if se, _ := c["stderr"].(string); strings.Contains(se, "verif c02:") {
